@@ -269,6 +269,11 @@ pub fn decode_whistory(data: &[u8]) -> WHistory {
             8 => WOp::Flush,
             9 => WOp::FlushDefer,
             10 => WOp::CheckIoError,
+            11 if b % 2 == 0 => WOp::DigitsNearEnd {
+                free: (a % 43) as u8,
+                ty: b / 2 % 12,
+                bits: if a & 0x100 == 0 { u128::MAX } else { (a as u128) << (b % 100) },
+            },
             _ => WOp::BufPtrAbsurd(b),
         });
     }
